@@ -10,9 +10,11 @@
    goes through handles obtained from the current root right before it), the canonical trees
    the constructors build [cfield_tree] and the statement of the whole property [C11_full].
 
-   The code as shipped violates the property in eleven places (each reproduced on the real code
-   through the rel-edit stream; proposed_fixes/C11-*.patch).  [fixed] is the code with all
-   eleven patches; the positive theorems are about [fixed]; for every defect there is a
+   The code as it is in /repo (HEAD c2fa7c8) violates the property in eight places (each
+   reproduced on the real code through the rel-edit stream; proposed_fixes/C11-*.patch; three
+   more defects of DESIGN §5 — immutable re-root, add_profile replacing, the builder's "[]" —
+   were repaired in /repo meanwhile and the model follows them).  [fixed] is the code with all
+   eight patches; the positive theorems are about [fixed]; for every defect there is a
    `_refuted` theorem with the failing history on [shipped], on the variant that lacks only that
    fix, and the repaired outcome on [fixed].
 
@@ -44,7 +46,7 @@ From V.proofs Require Import BaseP RelEditP RelEditStP RelEditHistP RelEditRefut
 (* the whole property, as a statement about a variant of the code (model/RelEditSpec.v) *)
 Definition C11_partial_note : Prop := C11_full fixed.
 
-(* 1. Histories (partial form of C11_full): no panic, refinement, visibility in the root, text *)
+(* 1. Histories (the proved part of C11_full): no panic, refinement, visibility in the root, text *)
 Theorem C11_history_constructed : forall ops f st,
   plain_field f = true -> forallb aop_plain ops = true -> hist_in_range f ops = true ->
   state_with_root st (cfield_tree f) ->
@@ -200,9 +202,9 @@ Check C11_entry_remove_store : forall ts rs r tid ri T p kd pre x post cs',
     (forall g, above tid p g -> F g = g).
 Print Assumptions C11_entry_remove_store.
 
-(* 5. The defects of the shipped code: the failing history on [shipped], on the variant without
-   that one fix, and the outcome on [fixed] *)
-(* insert(0, b) into "a" prints "ba" *)
+(* 5. The defects of the shipped code (/repo HEAD c2fa7c8): the failing history on [shipped], on the
+   variant without that one fix, and the outcome on [fixed] *)
+(* insert(0, b) into "a": the separator is left out, the names fuse *)
 Theorem C11_insert_first_refuted : 
   run_text shipped (IStrict [97]%N) [ONewEntry 1 (ESParse [98]%N); OInsert 0 1] = Ok [98; 97]%N /\
   run_text without_insert_first (IStrict [97]%N) [ONewEntry 1 (ESParse [98]%N); OInsert 0 1] = Ok [98; 97]%N /\
@@ -214,7 +216,7 @@ Check C11_insert_first_refuted :
   run_text fixed (IStrict [97]%N) [ONewEntry 1 (ESParse [98]%N); OInsert 0 1] = Ok [98; 44; 32; 97]%N.
 Print Assumptions C11_insert_first_refuted.
 
-(* Entry::from(vec![a, b]).remove_relation(0) panics *)
+(* Entry::from(vec![a, b]).remove_relation(0): the '|' is stored under kind COMMA, "Unexpected node" *)
 Theorem C11_pipe_refuted : 
   run_text shipped (IFromVec [ESFromVec [(RSSimple [97]%N); (RSSimple [98]%N)]]) [OGetEntry 0 0; OERemoveRel 0 0] = Panic 43%N /\
   run_text without_pipe (IFromVec [ESFromVec [(RSSimple [97]%N); (RSSimple [98]%N)]]) [OGetEntry 0 0; OERemoveRel 0 0] = Panic 43%N /\
@@ -226,31 +228,7 @@ Check C11_pipe_refuted :
   run_text fixed (IFromVec [ESFromVec [(RSSimple [97]%N); (RSSimple [98]%N)]]) [OGetEntry 0 0; OERemoveRel 0 0] = Ok [98]%N.
 Print Assumptions C11_pipe_refuted.
 
-(* set_architectures on a relation inside a field panics (immutable tree) *)
-Theorem C11_mut_root_refuted : 
-  run_text shipped (IStrict [97; 44; 32; 98]%N) [OGetEntry 0 0; OGetRel 0 0 0; OSetArchs 0 [[97; 109; 100; 54; 52]%N]] = Panic 30%N /\
-  run_text without_mut_root (IStrict [97; 44; 32; 98]%N) [OGetEntry 0 0; OGetRel 0 0 0; OSetArchs 0 [[97; 109; 100; 54; 52]%N]] = Panic 30%N /\
-  run_text fixed (IStrict [97; 44; 32; 98]%N) [OGetEntry 0 0; OGetRel 0 0 0; OSetArchs 0 [[97; 109; 100; 54; 52]%N]] = Ok [97; 32; 91; 97; 109; 100; 54; 52; 93; 44; 32; 98]%N.
-Proof. exact (conj mut_root_shipped (conj mut_root_needed mut_root_fixed)). Qed.
-Check C11_mut_root_refuted : 
-  run_text shipped (IStrict [97; 44; 32; 98]%N) [OGetEntry 0 0; OGetRel 0 0 0; OSetArchs 0 [[97; 109; 100; 54; 52]%N]] = Panic 30%N /\
-  run_text without_mut_root (IStrict [97; 44; 32; 98]%N) [OGetEntry 0 0; OGetRel 0 0 0; OSetArchs 0 [[97; 109; 100; 54; 52]%N]] = Panic 30%N /\
-  run_text fixed (IStrict [97; 44; 32; 98]%N) [OGetEntry 0 0; OGetRel 0 0 0; OSetArchs 0 [[97; 109; 100; 54; 52]%N]] = Ok [97; 32; 91; 97; 109; 100; 54; 52; 93; 44; 32; 98]%N.
-Print Assumptions C11_mut_root_refuted.
-
-(* add_profile replaces the first group *)
-Theorem C11_add_profile_refuted : 
-  run_text shipped (IStrict [97; 32; 60; 120; 62]%N) [OGetEntry 0 0; OGetRel 0 0 0; OAddProfile 0 [PEnabled [121]%N]] = Ok [97; 32; 60; 121; 62]%N /\
-  run_text without_add_profile (IStrict [97; 32; 60; 120; 62]%N) [OGetEntry 0 0; OGetRel 0 0 0; OAddProfile 0 [PEnabled [121]%N]] = Ok [97; 32; 60; 121; 62]%N /\
-  run_text fixed (IStrict [97; 32; 60; 120; 62]%N) [OGetEntry 0 0; OGetRel 0 0 0; OAddProfile 0 [PEnabled [121]%N]] = Ok [97; 32; 60; 120; 62; 32; 60; 121; 62]%N.
-Proof. exact (conj add_profile_shipped (conj add_profile_needed add_profile_fixed)). Qed.
-Check C11_add_profile_refuted : 
-  run_text shipped (IStrict [97; 32; 60; 120; 62]%N) [OGetEntry 0 0; OGetRel 0 0 0; OAddProfile 0 [PEnabled [121]%N]] = Ok [97; 32; 60; 121; 62]%N /\
-  run_text without_add_profile (IStrict [97; 32; 60; 120; 62]%N) [OGetEntry 0 0; OGetRel 0 0 0; OAddProfile 0 [PEnabled [121]%N]] = Ok [97; 32; 60; 121; 62]%N /\
-  run_text fixed (IStrict [97; 32; 60; 120; 62]%N) [OGetEntry 0 0; OGetRel 0 0 0; OAddProfile 0 [PEnabled [121]%N]] = Ok [97; 32; 60; 120; 62; 32; 60; 121; 62]%N.
-Print Assumptions C11_add_profile_refuted.
-
-(* Entry::push through a handle duplicates a sibling entry *)
+(* Entry::push through a handle: the entry is replaced by a copy of the whole ROOT *)
 Theorem C11_entry_push_refuted : 
   run_text shipped (IStrict [97; 44; 32; 98]%N) [ONewRel 1 (RSSimple [99]%N); OGetEntry 0 0; OEPush 0 1] = Ok [97; 32; 124; 32; 99; 44; 32; 98; 44; 32; 98]%N /\
   run_text without_entry_push (IStrict [97; 44; 32; 98]%N) [ONewRel 1 (RSSimple [99]%N); OGetEntry 0 0; OEPush 0 1] = Ok [97; 32; 124; 32; 99; 44; 32; 98; 44; 32; 98]%N /\
@@ -274,19 +252,7 @@ Check C11_append_sep_refuted :
   run_text fixed (IStrict [97; 44; 32]%N) [ONewEntry 1 (ESParse [122]%N); OPush 1] = Ok [97; 44; 32; 122]%N.
 Print Assumptions C11_append_sep_refuted.
 
-(* the builder always emits [] *)
-Theorem C11_builder_archs_refuted : 
-  run_text shipped INew [ONewEntry 1 (ESFromVec [RSBuild [97]%N None None [] []]); OPush 1] = Ok [97; 32; 91; 93]%N /\
-  run_text without_builder_archs INew [ONewEntry 1 (ESFromVec [RSBuild [97]%N None None [] []]); OPush 1] = Ok [97; 32; 91; 93]%N /\
-  run_text fixed INew [ONewEntry 1 (ESFromVec [RSBuild [97]%N None None [] []]); OPush 1] = Ok [97]%N.
-Proof. exact (conj builder_archs_shipped (conj builder_archs_needed builder_archs_fixed)). Qed.
-Check C11_builder_archs_refuted : 
-  run_text shipped INew [ONewEntry 1 (ESFromVec [RSBuild [97]%N None None [] []]); OPush 1] = Ok [97; 32; 91; 93]%N /\
-  run_text without_builder_archs INew [ONewEntry 1 (ESFromVec [RSBuild [97]%N None None [] []]); OPush 1] = Ok [97; 32; 91; 93]%N /\
-  run_text fixed INew [ONewEntry 1 (ESFromVec [RSBuild [97]%N None None [] []]); OPush 1] = Ok [97]%N.
-Print Assumptions C11_builder_archs_refuted.
-
-(* set_version splits the name from its qualifier (unreadable text) *)
+(* set_version puts the constraint between the name and its qualifier *)
 Theorem C11_version_pos_refuted : 
   run_text shipped (IStrict [97; 58; 97; 110; 121]%N) [OGetEntry 0 0; OGetRel 0 0 0; OSetVersion 0 (Some (VGe, [49]%N))] = Ok [97; 32; 40; 62; 61; 32; 49; 41; 58; 97; 110; 121]%N /\
   run_text without_version_pos (IStrict [97; 58; 97; 110; 121]%N) [OGetEntry 0 0; OGetRel 0 0 0; OSetVersion 0 (Some (VGe, [49]%N))] = Ok [97; 32; 40; 62; 61; 32; 49; 41; 58; 97; 110; 121]%N /\
@@ -298,7 +264,7 @@ Check C11_version_pos_refuted :
   run_text fixed (IStrict [97; 58; 97; 110; 121]%N) [OGetEntry 0 0; OGetRel 0 0 0; OSetVersion 0 (Some (VGe, [49]%N))] = Ok [97; 58; 97; 110; 121; 32; 40; 62; 61; 32; 49; 41]%N.
 Print Assumptions C11_version_pos_refuted.
 
-(* removing the only alternative leaves an empty entry and a dangling separator *)
+(* removing the only alternative leaves an empty entry and its separator *)
 Theorem C11_remove_last_refuted : 
   run_text shipped (IStrict [97; 44; 32; 98]%N) [OGetEntry 0 0; OGetRel 0 0 0; ORRemove 0] = Ok [44; 32; 98]%N /\
   run_text without_remove_last (IStrict [97; 44; 32; 98]%N) [OGetEntry 0 0; OGetRel 0 0 0; ORRemove 0] = Ok [44; 32; 98]%N /\
@@ -310,7 +276,7 @@ Check C11_remove_last_refuted :
   run_text fixed (IStrict [97; 44; 32; 98]%N) [OGetEntry 0 0; OGetRel 0 0 0; ORRemove 0] = Ok [98]%N.
 Print Assumptions C11_remove_last_refuted.
 
-(* removing the first entry after a substitution variable leaves a dangling separator *)
+(* removing the first entry after a substitution variable leaves the separator dangling *)
 Theorem C11_first_substvar_refuted : 
   run_text shipped (IRelaxed [36; 123; 120; 125; 44; 32; 98]%N) [ORemoveEntry 0] = Ok [36; 123; 120; 125; 44; 32]%N /\
   run_text without_first_substvar (IRelaxed [36; 123; 120; 125; 44; 32; 98]%N) [ORemoveEntry 0] = Ok [36; 123; 120; 125; 44; 32]%N /\
@@ -322,7 +288,7 @@ Check C11_first_substvar_refuted :
   run_text fixed (IRelaxed [36; 123; 120; 125; 44; 32; 98]%N) [ORemoveEntry 0] = Ok [36; 123; 120; 125]%N.
 Print Assumptions C11_first_substvar_refuted.
 
-(* Entry::replace with a relation ending in white space deletes its name *)
+(* Entry::replace with a relation that ends in white space deletes its name *)
 Theorem C11_replace_ws_refuted : 
   run_text shipped (IStrict [97; 32; 124; 32; 98]%N) [ONewRel 1 (RSParse [99; 32]%N); OGetEntry 0 0; OEReplace 0 1 1] = Ok [97; 32; 124; 32; 32]%N /\
   run_text without_replace_ws (IStrict [97; 32; 124; 32; 98]%N) [ONewRel 1 (RSParse [99; 32]%N); OGetEntry 0 0; OEReplace 0 1 1] = Ok [97; 32; 124; 32; 32]%N /\
@@ -334,17 +300,15 @@ Check C11_replace_ws_refuted :
   run_text fixed (IStrict [97; 32; 124; 32; 98]%N) [ONewRel 1 (RSParse [99; 32]%N); OGetEntry 0 0; OEReplace 0 1 1] = Ok [97; 32; 124; 32; 99]%N.
 Print Assumptions C11_replace_ws_refuted.
 
-(* a second set_architectures on a stand-alone relation, and the builder with two profile groups, panic *)
-Theorem C11_immutable_twice_refuted : 
-  run_text shipped INew [ONewRel 0 (RSSimple [97]%N); OSetArchs 0 [[97; 109; 100; 54; 52]%N]; OSetArchs 0 [[105; 51; 56; 54]%N]] = Panic 33%N /\
-  run_text shipped INew [ONewRel 0 (RSBuild [97]%N None None [] [[PEnabled [120]%N]; [PEnabled [121]%N]])] = Panic 33%N /\
-  run_text fixed INew [ONewEntry 1 (ESFromVec [RSBuild [97]%N None None [] [[PEnabled [120]%N]; [PDisabled [121]%N]]]); OPush 1] = Ok [97; 32; 60; 120; 62; 32; 60; 33; 121; 62]%N.
-Proof. exact (conj mut_root_twice_shipped (conj mut_root_builder_shipped mut_root_builder_fixed)). Qed.
-Check C11_immutable_twice_refuted : 
-  run_text shipped INew [ONewRel 0 (RSSimple [97]%N); OSetArchs 0 [[97; 109; 100; 54; 52]%N]; OSetArchs 0 [[105; 51; 56; 54]%N]] = Panic 33%N /\
-  run_text shipped INew [ONewRel 0 (RSBuild [97]%N None None [] [[PEnabled [120]%N]; [PEnabled [121]%N]])] = Panic 33%N /\
-  run_text fixed INew [ONewEntry 1 (ESFromVec [RSBuild [97]%N None None [] [[PEnabled [120]%N]; [PDisabled [121]%N]]]); OPush 1] = Ok [97; 32; 60; 120; 62; 32; 60; 33; 121; 62]%N.
-Print Assumptions C11_immutable_twice_refuted.
+(* push after a substitution variable fuses the name with it *)
+Theorem C11_append_sep_substvar_refuted : 
+  run_text shipped (IRelaxed [36; 123; 120; 125]%N) [ONewEntry 1 (ESParse [98]%N); OPush 1] = Ok [36; 123; 120; 125; 98]%N /\
+  run_text fixed (IRelaxed [36; 123; 120; 125]%N) [ONewEntry 1 (ESParse [98]%N); OPush 1] = Ok [36; 123; 120; 125; 44; 32; 98]%N.
+Proof. exact (conj append_sep_substvar_shipped append_sep_substvar_fixed). Qed.
+Check C11_append_sep_substvar_refuted : 
+  run_text shipped (IRelaxed [36; 123; 120; 125]%N) [ONewEntry 1 (ESParse [98]%N); OPush 1] = Ok [36; 123; 120; 125; 98]%N /\
+  run_text fixed (IRelaxed [36; 123; 120; 125]%N) [ONewEntry 1 (ESParse [98]%N); OPush 1] = Ok [36; 123; 120; 125; 44; 32; 98]%N.
+Print Assumptions C11_append_sep_substvar_refuted.
 
 Theorem C11_version_pos_unreadable : reads_clean [97; 32; 40; 62; 61; 32; 49; 41; 58; 97; 110; 121]%N = false /\ reads_clean [97; 58; 97; 110; 121; 32; 40; 62; 61; 32; 49; 41]%N = true.
 Proof. exact version_pos_unreadable. Qed.
